@@ -106,21 +106,29 @@ Example ex_decimal : lex_delta (bs "1_000i32 12ab 9 1__ 340282366920938463463374
    T KNakedDecimal 340282366920938463463374607431768211455 None 20 59 1 20;
    T KError E140 None 60 99 1 60; T KSuffixedInteger 99 (Some (TyPrim Uint64)) 100 105 1 100].
 Proof. vm_compute. reflexivity. Qed.
-(* D4: 2^128 .. 2^128+3 wrap around (release) / panic (debug) *)
+(* D4 (repaired in 81d8d87): in the PINNED code 2^128 .. 2^128+3 wrapped around
+   (release) / panicked (debug); the CURRENT code reports E140 *)
 Example ex_decimal_wrap :
-  (lex_delta (bs "340282366920938463463374607431768211456"), would_overflow_panic (bs "340282366920938463463374607431768211456")) =
-  ([T KNakedDecimal 0 None 0 39 1 0], true).
+  (lex_delta_pinned (bs "340282366920938463463374607431768211456"),
+   would_overflow_panic_pinned (bs "340282366920938463463374607431768211456"),
+   lex_delta (bs "340282366920938463463374607431768211456"),
+   would_overflow_panic (bs "340282366920938463463374607431768211456")) =
+  ([T KNakedDecimal 0 None 0 39 1 0], true, [T KError E140 None 0 39 1 0], false).
 Proof. vm_compute. reflexivity. Qed.
-Example ex_decimal_wrap3 : lex_delta (bs "340282366920938463463374607431768211459u8") =
-  [T KSuffixedInteger 3 (Some (TyPrim Uint8)) 0 41 1 0].
+Example ex_decimal_wrap3 :
+  (lex_delta_pinned (bs "340282366920938463463374607431768211459u8"), lex_delta (bs "340282366920938463463374607431768211459u8")) =
+  ([T KSuffixedInteger 3 (Some (TyPrim Uint8)) 0 41 1 0], [T KError E140 None 0 41 1 0]).
 Proof. vm_compute. reflexivity. Qed.
-Example ex_decimal_wrap_longer : lex_delta (bs "3402823669209384634633746074317682114577") = [T KNakedDecimal 17 None 0 40 1 0].
+Example ex_decimal_wrap_longer :
+  (lex_delta_pinned (bs "3402823669209384634633746074317682114577"), lex_delta (bs "3402823669209384634633746074317682114577")) =
+  ([T KNakedDecimal 17 None 0 40 1 0], [T KError E140 None 0 40 1 0]).
 Proof. vm_compute. reflexivity. Qed.
 (* after a checked_mul overflow the accumulator restarts at 0, so the unchecked add can
    still overflow later: E140 in release, panic in debug *)
 Example ex_decimal_late_panic :
   let s := bs "99999999999999999999999999999999999999340282366920938463463374607431768211456" in
-  (lex_delta s, would_overflow_panic s) = ([T KError E140 None 0 77 1 0], true).
+  (lex_delta_pinned s, would_overflow_panic_pinned s, lex_delta s, would_overflow_panic s) =
+  ([T KError E140 None 0 77 1 0], true, [T KError E140 None 0 77 1 0], false).
 Proof. vm_compute. reflexivity. Qed.
 
 (* char literals *)
@@ -187,6 +195,9 @@ Proof. vm_compute. reflexivity. Qed.
 (* ========================================================================== *)
 (* 1. Consumption lemmas                                                      *)
 (* ========================================================================== *)
+Section Generic.
+Variable push : dacc -> N -> dacc.
+
 Lemma lenN_nil : lenN [] = 0.
 Proof. reflexivity. Qed.
 Lemma lenN_cons y l : lenN (y :: l) = lenN l + 1.
@@ -286,9 +297,9 @@ Proof. vm_compute. discriminate. Qed.
 Lemma hex_digit_10 d : hex_digit 10 = Some d -> False.
 Proof. vm_compute. discriminate. Qed.
 
-Lemma scan_dec_adv : forall l a e a' e' l', scan_dec a e l = (a', e', l') -> adv e l e' l'.
+Lemma scan_dec_adv : forall l a e a' e' l', scan_dec_with push a e l = (a', e', l') -> adv e l e' l'.
 Proof.
-  induction l as [|y r IH]; intros a e a' e' l' H; cbn [scan_dec] in H.
+  induction l as [|y r IH]; intros a e a' e' l' H; cbn [scan_dec_with] in H.
   - inversion H; subst. apply adv_refl.
   - destruct (dec_digit y) as [d|] eqn:Hd.
     + apply adv_step; [intros ->; eapply dec_digit_10; eassumption|]. eapply IH; eassumption.
@@ -557,10 +568,10 @@ Proof.
   intros Hn Hie. unfold suffixed. destruct (parse_integer_suffix sfx); [act_tok|act_err].
 Qed.
 
-Lemma lex_decimal_ok x r i : x <> 10 -> step_ok x r i (lex_decimal x r i).
+Lemma lex_decimal_ok x r i : x <> 10 -> step_ok x r i (lex_decimal_with push x r i).
 Proof.
-  intros Hx. unfold lex_decimal.
-  destruct (scan_dec _ (i + 1) r) as [[a e1] r1] eqn:Hd.
+  intros Hx. unfold lex_decimal_with.
+  destruct (scan_dec_with push _ (i + 1) r) as [[a e1] r1] eqn:Hd.
   apply scan_dec_adv in Hd as (s1 & Hr & He1 & Hn1).
   destruct (span_while is_ident_cont r1) as [sfx r2] eqn:Hs.
   apply span_while_spec in Hs as (Hr1 & Ht & _).
@@ -621,9 +632,9 @@ Proof.
   destruct (nb s' =? 1); [act_tok|act_err].
 Qed.
 
-Theorem lex_step_ok fuel x r i : (length r < fuel)%nat -> step_ok x r i (lex_step fuel x r i).
+Theorem lex_step_ok_gen fuel x r i : (length r < fuel)%nat -> step_ok x r i (lex_step_with push fuel x r i).
 Proof.
-  intros Hf. unfold lex_step.
+  intros Hf. unfold lex_step_with.
   destruct ((x =? 32) || (x =? 9) || (x =? 13)) eqn:Hws.
   { step_ex (@nil N); [reflexivity|]. cbn [act_ok]. apply nl_ok_nonl.
     constructor; [|constructor]. intros ->. discriminate. }
@@ -658,10 +669,10 @@ Proof.
 Qed.
 
 (* progress: every iteration consumes at least the byte it looked at *)
-Corollary lex_step_progress fuel x r i : (length r < fuel)%nat ->
-  (length (srest (lex_step fuel x r i)) <= length r)%nat /\ i < send (lex_step fuel x r i).
+Corollary lex_step_progress_gen fuel x r i : (length r < fuel)%nat ->
+  (length (srest (lex_step_with push fuel x r i)) <= length r)%nat /\ i < send (lex_step_with push fuel x r i).
 Proof.
-  intros Hf. destruct (lex_step_ok fuel x r i Hf) as (seg & Hr & He & _).
+  intros Hf. destruct (lex_step_ok_gen fuel x r i Hf) as (seg & Hr & He & _).
   rewrite Hr at 2. rewrite app_length. split; lia.
 Qed.
 (* ========================================================================== *)
@@ -703,15 +714,15 @@ Definition loop_post (cap errcap ntok nerr ln : N) (rest : list N) (toks : list 
 Lemma lex_loop_inv cap errcap : forall fuel rest pos ln sol ntok npay nerr,
   (length rest < fuel)%nat ->
   lr_prop (fun toks _ _ => loop_post cap errcap ntok nerr ln rest toks)
-          (lex_loop fuel rest pos ln sol ntok npay nerr cap errcap).
+          (lex_loop_with push fuel rest pos ln sol ntok npay nerr cap errcap).
 Proof.
   induction fuel as [|f IH]; intros rest pos ln sol ntok npay nerr Hf; [lia|].
-  cbn [lex_loop]. destruct rest as [|x r].
+  cbn [lex_loop_with]. destruct rest as [|x r].
   - destruct (N.leb_spec cap (ntok + 1)); cbn [lr_prop]; [exact I|].
     unfold loop_post. cbn [count_err]. repeat split; try llia. constructor.
   - cbn [length] in Hf.
-    remember (lex_step f x r pos) as s eqn:Hs.
-    destruct (lex_step_ok f x r pos ltac:(lia)) as (seg & Hr & He & Hact). rewrite <- Hs in *.
+    remember (lex_step_with push f x r pos) as s eqn:Hs.
+    destruct (lex_step_ok_gen f x r pos ltac:(lia)) as (seg & Hr & He & Hact). rewrite <- Hs in *.
     assert (Hlen : (length (srest s) < f)%nat) by (rewrite Hr in Hf; rewrite app_length in Hf; lia).
     assert (HlenN : lenN (srest s) <= lenN r) by (rewrite Hr; rewrite lenN_app; lia).
     apply lr_prop_panic.
@@ -746,17 +757,17 @@ Qed.
 Lemma lex_loop_no_fail cap errcap : forall fuel rest pos ln sol ntok npay nerr,
   (length rest < fuel)%nat ->
   ntok + lenN rest + 2 <= cap -> npay + lenN rest <= MAX_NUM_PAYLOADS ->
-  match lex_loop fuel rest pos ln sol ntok npay nerr cap errcap with
+  match lex_loop_with push fuel rest pos ln sol ntok npay nerr cap errcap with
   | Done _ _ _ _ => True
   | _ => False
   end.
 Proof.
   induction fuel as [|f IH]; intros rest pos ln sol ntok npay nerr Hf Hc Hp; [lia|].
-  cbn [lex_loop]. destruct rest as [|x r].
+  cbn [lex_loop_with]. destruct rest as [|x r].
   - rewrite lenN_nil in Hc. destruct (N.leb_spec cap (ntok + 1)); [lia|exact I].
   - cbn [length] in Hf. rewrite lenN_cons in Hc, Hp.
-    remember (lex_step f x r pos) as s eqn:Hs.
-    destruct (lex_step_ok f x r pos ltac:(lia)) as (seg & Hr & He & Hact). rewrite <- Hs in *.
+    remember (lex_step_with push f x r pos) as s eqn:Hs.
+    destruct (lex_step_ok_gen f x r pos ltac:(lia)) as (seg & Hr & He & Hact). rewrite <- Hs in *.
     assert (Hlen : (length (srest s) < f)%nat) by (rewrite Hr in Hf; rewrite app_length in Hf; lia).
     assert (HlenN : lenN (srest s) <= lenN r) by (rewrite Hr; rewrite lenN_app; lia).
     assert (Hpan : forall p0 r0, match r0 with Done _ _ _ _ => True | _ => False end ->
@@ -781,16 +792,16 @@ Qed.
 Lemma token_capacity_bounds n : 65536 <= token_capacity n <= MAX_NUM_TOKENS.
 Proof. unfold token_capacity, MAX_NUM_TOKENS. lia. Qed.
 
-Lemma lex_result_run src r : lex_result src = LexRun r ->
-  r = lex_loop (S (length src)) src 0 1 0 0 1 0 (token_capacity (lenN src)) (error_capacity (lenN src))
+Lemma lex_result_run src r : lex_result_with push src = LexRun r ->
+  r = lex_loop_with push (S (length src)) src 0 1 0 0 1 0 (token_capacity (lenN src)) (error_capacity (lenN src))
   /\ 0 < lenN src <= MAX_SOURCE_LEN.
 Proof.
-  unfold lex_result. destruct (N.eqb_spec (lenN src) 0) as [H0|H0]; [discriminate|].
+  unfold lex_result_with. destruct (N.eqb_spec (lenN src) 0) as [H0|H0]; [discriminate|].
   destruct (N.ltb_spec MAX_SOURCE_LEN (lenN src)) as [H1|H1]; [discriminate|].
   intros Hr; inversion Hr. split; [reflexivity|lia].
 Qed.
 
-Lemma lex_result_post src toks ln sol p : lex_result src = LexRun (Done toks ln sol p) ->
+Lemma lex_result_post src toks ln sol p : lex_result_with push src = LexRun (Done toks ln sol p) ->
   loop_post (token_capacity (lenN src)) (error_capacity (lenN src)) 0 0 1 src toks.
 Proof.
   intros H. apply lex_result_run in H as [H _].
@@ -799,8 +810,8 @@ Proof.
   rewrite <- H in Hinv. exact Hinv.
 Qed.
 
-(* 4. total: the fuel length + 1 is always enough *)
-Theorem total_result src : lex_result src <> LexRun OutOfFuel.
+(* 4. total_gen: the fuel length + 1 is always enough *)
+Theorem total_result_gen src : lex_result_with push src <> LexRun OutOfFuel.
 Proof.
   intros H. apply lex_result_run in H as [H _].
   pose proof (lex_loop_inv (token_capacity (lenN src)) (error_capacity (lenN src))
@@ -808,23 +819,23 @@ Proof.
   rewrite <- H in Hinv. exact Hinv.
 Qed.
 
-Theorem total src : lex_delta src <> [out_of_fuel_tok].
+Theorem total_gen src : lex_delta_with push src <> [out_of_fuel_tok].
 Proof.
-  unfold lex_delta. destruct (lex_result src) as [| |[|p|toks ln sol p]] eqn:Hr; try discriminate.
-  - exfalso. eapply total_result; eassumption.
+  unfold lex_delta_with. destruct (lex_result_with push src) as [| |[|p|toks ln sol p]] eqn:Hr; try discriminate.
+  - exfalso. eapply total_result_gen; eassumption.
   - apply lex_result_post in Hr as (_ & _ & _ & _ & Hl). intros ->.
     inversion Hl as [|? ? H1 _]; subst. cbn in H1. lia.
 Qed.
 
 (* 1. the `unsafe set_len` argument: unless the lexer reports E103, all tokens,
    the two EndOfSource tokens included, were written below the capacity *)
-Theorem token_push_in_bounds src :
-  lex_delta src = [err_tok0 E103] \/
-  lenT (lex_delta src) + num_end_tokens src <= token_capacity (lenN src).
+Theorem token_push_in_bounds_gen src :
+  lex_delta_with push src = [err_tok0 E103] \/
+  lenT (lex_delta_with push src) + num_end_tokens_with push src <= token_capacity (lenN src).
 Proof.
-  unfold lex_delta, num_end_tokens.
+  unfold lex_delta_with, num_end_tokens_with.
   pose proof (token_capacity_bounds (lenN src)) as Hc.
-  destruct (lex_result src) as [| |[|p|toks ln sol p]] eqn:Hr.
+  destruct (lex_result_with push src) as [| |[|p|toks ln sol p]] eqn:Hr.
   - right. cbn. lia.
   - right. cbn. lia.
   - right. cbn. lia.
@@ -833,30 +844,30 @@ Proof.
 Qed.
 
 (* the same, on the run itself: the last write index is [lenT toks + 1] *)
-Theorem token_push_in_bounds_run src toks ln sol p :
-  lex_result src = LexRun (Done toks ln sol p) ->
+Theorem token_push_in_bounds_run_gen src toks ln sol p :
+  lex_result_with push src = LexRun (Done toks ln sol p) ->
   lenT toks + 1 < token_capacity (lenN src).
 Proof. intros Hr. apply lex_result_post in Hr as (H1 & _). lia. Qed.
 
 (* every token consumes at least one byte *)
-Theorem tokens_le_bytes src toks ln sol p :
-  lex_result src = LexRun (Done toks ln sol p) -> lenT toks <= lenN src.
+Theorem tokens_le_bytes_gen src toks ln sol p :
+  lex_result_with push src = LexRun (Done toks ln sol p) -> lenT toks <= lenN src.
 Proof. intros Hr. apply lex_result_post in Hr as (_ & H2 & _). exact H2. Qed.
 
-Theorem tokens_le_bytes_plus_k src :
-  lenT (lex_delta src) + num_end_tokens src <= lenN src + 2.
+Theorem tokens_le_bytes_plus_k_gen src :
+  lenT (lex_delta_with push src) + num_end_tokens_with push src <= lenN src + 2.
 Proof.
-  unfold lex_delta, num_end_tokens.
-  destruct (lex_result src) as [| |[|p|toks ln sol p]] eqn:Hr; try (cbn; lia).
-  apply tokens_le_bytes in Hr. lia.
+  unfold lex_delta_with, num_end_tokens_with.
+  destruct (lex_result_with push src) as [| |[|p|toks ln sol p]] eqn:Hr; try (cbn; lia).
+  apply tokens_le_bytes_gen in Hr. lia.
 Qed.
 
 (* consequently E103 is impossible below 65535 bytes (ex_too_many_tokens shows
    that 65535 bytes can already trigger it) *)
-Theorem no_E103_small src : lenN src + 2 <= 65536 -> lex_delta src <> [err_tok0 E103].
+Theorem no_E103_small_gen src : lenN src + 2 <= 65536 -> lex_delta_with push src <> [err_tok0 E103].
 Proof.
-  intros Hlen. unfold lex_delta.
-  destruct (lex_result src) as [| |[|p|toks ln sol p]] eqn:Hr; try discriminate.
+  intros Hlen. unfold lex_delta_with.
+  destruct (lex_result_with push src) as [| |[|p|toks ln sol p]] eqn:Hr; try discriminate.
   - exfalso. apply lex_result_run in Hr as [Hr _].
     pose proof (lex_loop_no_fail (token_capacity (lenN src)) (error_capacity (lenN src))
                   (S (length src)) src 0 1 0 0 1 0 ltac:(lia)) as Hnf.
@@ -869,26 +880,173 @@ Qed.
 
 (* 5. at most MAX_NUM_LEXING_ERRORS error tokens exist; an error after the cap
    leaves NO token (neither BaseToken::Error nor anything else) *)
-Theorem errors_capped src : count_err (lex_delta src) <= MAX_NUM_LEXING_ERRORS.
+Theorem errors_capped_gen src : count_err (lex_delta_with push src) <= MAX_NUM_LEXING_ERRORS.
 Proof.
-  unfold lex_delta, MAX_NUM_LEXING_ERRORS.
-  destruct (lex_result src) as [| |[|p|toks ln sol p]] eqn:Hr; try (cbn; lia).
+  unfold lex_delta_with, MAX_NUM_LEXING_ERRORS.
+  destruct (lex_result_with push src) as [| |[|p|toks ln sol p]] eqn:Hr; try (cbn; lia).
   apply lex_result_post in Hr as (_ & _ & H3 & _). unfold error_capacity, MAX_NUM_LEXING_ERRORS in H3. lia.
 Qed.
 
-Theorem errors_capped_by_length src toks ln sol p :
-  lex_result src = LexRun (Done toks ln sol p) -> count_err toks <= error_capacity (lenN src).
+Theorem errors_capped_by_length_gen src toks ln sol p :
+  lex_result_with push src = LexRun (Done toks ln sol p) -> count_err toks <= error_capacity (lenN src).
 Proof. intros Hr. apply lex_result_post in Hr as (_ & _ & H3 & _). lia. Qed.
 
 (* once the cap is reached the rest of the source yields no error token at all *)
-Theorem errors_dropped_after_cap cap errcap fuel rest pos ln sol ntok npay nerr toks l2 s2 p :
+Theorem errors_dropped_after_cap_gen cap errcap fuel rest pos ln sol ntok npay nerr toks l2 s2 p :
   (length rest < fuel)%nat -> errcap <= nerr ->
-  lex_loop fuel rest pos ln sol ntok npay nerr cap errcap = Done toks l2 s2 p ->
+  lex_loop_with push fuel rest pos ln sol ntok npay nerr cap errcap = Done toks l2 s2 p ->
   count_err toks = 0.
 Proof.
   intros Hf Hc H. pose proof (lex_loop_inv cap errcap fuel rest pos ln sol ntok npay nerr Hf) as Hinv.
   rewrite H in Hinv. destruct Hinv as (_ & _ & _ & H4 & _). auto.
 Qed.
+
+(* ---- from one step to the whole source ----------------------------------- *)
+Lemma lex_delta_single_tok x r k v ty en p :
+  lenN (x :: r) <= MAX_SOURCE_LEN ->
+  lex_step_with push (S (length r)) x r 0 = {| act := ATok k v ty en; srest := []; send := en; spanic := p |} ->
+  lex_delta_with push (x :: r) = [mk_tok k v ty 0 en 1 0] /\ would_overflow_panic_with push (x :: r) = p /\
+  num_end_tokens_with push (x :: r) = 2.
+Proof.
+  intros Hlen Hs. unfold lex_delta_with, would_overflow_panic_with, num_end_tokens_with, lex_result_with.
+  destruct (N.eqb_spec (lenN (x :: r)) 0) as [H0|_]; [rewrite lenN_cons in H0; lia|].
+  destruct (N.ltb_spec MAX_SOURCE_LEN (lenN (x :: r))) as [H1|_]; [lia|].
+  pose proof (token_capacity_bounds (lenN (x :: r))) as Hc.
+  cbn [lex_loop_with length]. rewrite Hs. cbn [act srest send spanic].
+  replace (MAX_NUM_PAYLOADS <=? 1) with false by reflexivity. rewrite andb_false_r. cbn [orb].
+  destruct (N.leb_spec (token_capacity (lenN (x :: r))) 0) as [H2|_]; [lia|].
+  destruct (N.leb_spec (token_capacity (lenN (x :: r))) (0 + 1 + 1)) as [H2|_]; [lia|].
+  cbn [lr_cons lr_panic]. rewrite orb_false_r. auto.
+Qed.
+
+Lemma lex_delta_single_err x r c st en p :
+  lenN (x :: r) <= MAX_SOURCE_LEN ->
+  lex_step_with push (S (length r)) x r 0 = {| act := AErr c st en; srest := []; send := en; spanic := p |} ->
+  lex_delta_with push (x :: r) = [mk_tok KError c None st en 1 0] /\ would_overflow_panic_with push (x :: r) = p /\
+  num_end_tokens_with push (x :: r) = 2.
+Proof.
+  intros Hlen Hs. unfold lex_delta_with, would_overflow_panic_with, num_end_tokens_with, lex_result_with.
+  destruct (N.eqb_spec (lenN (x :: r)) 0) as [H0|_]; [rewrite lenN_cons in H0; lia|].
+  destruct (N.ltb_spec MAX_SOURCE_LEN (lenN (x :: r))) as [H1|_]; [lia|].
+  pose proof (token_capacity_bounds (lenN (x :: r))) as Hc.
+  cbn [lex_loop_with length]. rewrite Hs. cbn [act srest send spanic].
+  destruct (N.leb_spec (error_capacity (lenN (x :: r))) 0) as [H2|_].
+  { unfold error_capacity, MAX_NUM_LEXING_ERRORS in H2. rewrite lenN_cons in H2. lia. }
+  destruct (N.leb_spec (token_capacity (lenN (x :: r))) 0) as [H2|_]; [lia|].
+  destruct (N.leb_spec (token_capacity (lenN (x :: r))) (0 + 1 + 1)) as [H2|_]; [lia|].
+  cbn [lr_cons lr_panic]. rewrite orb_false_r. auto.
+Qed.
+
+End Generic.
+
+(* Ltac definitions do not survive the section *)
+Ltac llia := rewrite ?lenN_app, ?lenN_cons, ?lenN_nil, ?lenT_cons, ?lenT_nil in *; lia.
+
+(* ========================================================================== *)
+(* 3b. The panic flag; the theorems above for the CURRENT lexer               *)
+(* ========================================================================== *)
+(* if the accumulation step never raises the flag, no iteration does *)
+Lemma scan_dec_no_panic push :
+  (forall a d, dpanic a = false -> dpanic (push a d) = false) ->
+  forall l a e a' e' l', dpanic a = false -> scan_dec_with push a e l = (a', e', l') -> dpanic a' = false.
+Proof.
+  intros Hpush. induction l as [|y r IH]; intros a e a' e' l' Ha H; cbn [scan_dec_with] in H.
+  - inversion H; subst. exact Ha.
+  - destruct (dec_digit y) as [d|].
+    + eapply IH; [|exact H]. apply Hpush. exact Ha.
+    + destruct (y =? 95); [eapply IH; eassumption|]. inversion H; subst. exact Ha.
+Qed.
+
+Lemma lex_step_no_panic push f x r i :
+  (forall a d, dpanic a = false -> dpanic (push a d) = false) ->
+  spanic (lex_step_with push f x r i) = false.
+Proof.
+  intros Hpush. unfold lex_step_with.
+  destruct ((x =? 32) || (x =? 9) || (x =? 13)); [reflexivity|].
+  destruct (x =? 10); [reflexivity|].
+  destruct (x =? 47).
+  { destruct r as [|y r']; [reflexivity|]. destruct (y =? 47); [|reflexivity].
+    destruct (span_while _ r'). reflexivity. }
+  destruct (assoc_N x punct_table) as [[seconds k1]|].
+  { destruct r as [|y r']; [reflexivity|]. destruct (assoc_N y seconds); reflexivity. }
+  destruct (is_ident_start x).
+  { unfold lex_ident. destruct (span_while _ r) as [t r1].
+    destruct (lookup_keyword (x :: t)) as [[[k v] ty]|]; [reflexivity|].
+    destruct r1 as [|y r2]; [reflexivity|]. destruct (y =? 33); reflexivity. }
+  destruct (x =? 48).
+  { unfold lex_zero. destruct (zero_prefix r (i + 1)) as [[[val eol] e1] r1].
+    destruct (span_while _ r1). reflexivity. }
+  destruct (in_range 49 57 x).
+  { unfold lex_decimal_with. destruct (scan_dec_with push _ (i + 1) r) as [[a e1] r1] eqn:Hd.
+    destruct (span_while _ r1). cbn [spanic]. eapply scan_dec_no_panic; [exact Hpush| |exact Hd]. reflexivity. }
+  destruct (x =? 39); [unfold lex_literal; destruct (scan_lit _ _ _ _ _ _) as [[[s e] r']|]; reflexivity|].
+  destruct (x =? 34); [unfold lex_literal; destruct (scan_lit _ _ _ _ _ _) as [[[s e] r']|]; reflexivity|].
+  reflexivity.
+Qed.
+
+Definition lr_flag (r : loop_result) : bool :=
+  match r with OutOfFuel => false | AllocFail p => p | Done _ _ _ p => p end.
+
+Lemma lex_loop_no_panic push cap errcap :
+  (forall a d, dpanic a = false -> dpanic (push a d) = false) ->
+  forall fuel rest pos ln sol ntok npay nerr,
+    lr_flag (lex_loop_with push fuel rest pos ln sol ntok npay nerr cap errcap) = false.
+Proof.
+  intros Hpush. induction fuel as [|f IH]; intros rest pos ln sol ntok npay nerr; [reflexivity|].
+  cbn [lex_loop_with]. destruct rest as [|x r].
+  - destruct (cap <=? ntok + 1); reflexivity.
+  - rewrite (lex_step_no_panic push f x r pos Hpush).
+    assert (Hp : forall r0, lr_flag r0 = false -> lr_flag (lr_panic false r0) = false) by (intros [| |]; auto).
+    assert (Hc : forall t r0, lr_flag r0 = false -> lr_flag (lr_cons t r0) = false) by (intros t [| |]; auto).
+    apply Hp. destruct (act (lex_step_with push f x r pos)) as [| |k v ty en|c st en|]; try apply IH; try reflexivity.
+    + destruct ((has_payload k && (MAX_NUM_PAYLOADS <=? npay)) || (cap <=? ntok)); [reflexivity|]. apply Hc, IH.
+    + destruct (errcap <=? nerr); [apply IH|]. destruct (cap <=? ntok); [reflexivity|]. apply Hc, IH.
+Qed.
+
+(* since the repair nothing in the lexer can overflow *)
+Theorem would_overflow_panic_never : forall src, would_overflow_panic src = false.
+Proof.
+  intros src. unfold would_overflow_panic, would_overflow_panic_with, lex_result_with.
+  destruct (lenN src =? 0); [reflexivity|]. destruct (MAX_SOURCE_LEN <? lenN src); [reflexivity|].
+  pose proof (lex_loop_no_panic dec_push (token_capacity (lenN src)) (error_capacity (lenN src))
+                ltac:(intros a d H; exact H) (S (length src)) src 0 1 0 0 1 0) as H.
+  destruct (lex_loop_with dec_push _ _ _ _ _ _ _ _ _ _) as [|p|toks ln sol p]; [reflexivity|exact H|exact H].
+Qed.
+
+(* ---- instances for the CURRENT lexer ([push] = [dec_push]) ------------------ *)
+Theorem lex_step_ok fuel x r i : (length r < fuel)%nat -> step_ok x r i (lex_step fuel x r i).
+Proof. apply (lex_step_ok_gen dec_push). Qed.
+Corollary lex_step_progress fuel x r i : (length r < fuel)%nat ->
+  (length (srest (lex_step fuel x r i)) <= length r)%nat /\ i < send (lex_step fuel x r i).
+Proof. apply (lex_step_progress_gen dec_push). Qed.
+Theorem total_result src : lex_result src <> LexRun OutOfFuel.
+Proof. apply (total_result_gen dec_push). Qed.
+Theorem total src : lex_delta src <> [out_of_fuel_tok].
+Proof. apply (total_gen dec_push). Qed.
+Theorem token_push_in_bounds src :
+  lex_delta src = [err_tok0 E103] \/
+  lenT (lex_delta src) + num_end_tokens src <= token_capacity (lenN src).
+Proof. apply (token_push_in_bounds_gen dec_push). Qed.
+Theorem token_push_in_bounds_run src toks ln sol p :
+  lex_result src = LexRun (Done toks ln sol p) -> lenT toks + 1 < token_capacity (lenN src).
+Proof. apply (token_push_in_bounds_run_gen dec_push). Qed.
+Theorem tokens_le_bytes src toks ln sol p :
+  lex_result src = LexRun (Done toks ln sol p) -> lenT toks <= lenN src.
+Proof. apply (tokens_le_bytes_gen dec_push). Qed.
+Theorem tokens_le_bytes_plus_k src : lenT (lex_delta src) + num_end_tokens src <= lenN src + 2.
+Proof. apply (tokens_le_bytes_plus_k_gen dec_push). Qed.
+Theorem no_E103_small src : lenN src + 2 <= 65536 -> lex_delta src <> [err_tok0 E103].
+Proof. apply (no_E103_small_gen dec_push). Qed.
+Theorem errors_capped src : count_err (lex_delta src) <= MAX_NUM_LEXING_ERRORS.
+Proof. apply (errors_capped_gen dec_push). Qed.
+Theorem errors_capped_by_length src toks ln sol p :
+  lex_result src = LexRun (Done toks ln sol p) -> count_err toks <= error_capacity (lenN src).
+Proof. apply (errors_capped_by_length_gen dec_push). Qed.
+Theorem errors_dropped_after_cap cap errcap fuel rest pos ln sol ntok npay nerr toks l2 s2 p :
+  (length rest < fuel)%nat -> errcap <= nerr ->
+  lex_loop fuel rest pos ln sol ntok npay nerr cap errcap = Done toks l2 s2 p ->
+  count_err toks = 0.
+Proof. apply (errors_dropped_after_cap_gen dec_push). Qed.
 
 (* ========================================================================== *)
 (* 4. Values of integer literals                                              *)
@@ -950,22 +1108,32 @@ Proof.
   apply negb_true_iff in H. rewrite H. reflexivity.
 Qed.
 
+(* weaker "what follows the digits" conditions, enough for the scanners *)
+Definition dec_stops (rest : list N) : Prop :=
+  match rest with [] => True | y :: _ => dec_digit y = None /\ (y =? 95) = false end.
+Definition hex_stops (rest : list N) : Prop :=
+  match rest with [] => True | y :: _ => hex_digit y = None /\ (y =? 95) = false end.
+Definition bin_stops (rest : list N) : Prop :=
+  match rest with [] => True | y :: _ => (y =? 48) = false /\ (y =? 49) = false /\ (y =? 95) = false end.
+Lemma ends_dec_stops tail : ends_token tail = true -> dec_stops tail.
+Proof. destruct tail as [|y t]; [exact (fun _ => I)|]. cbn [ends_token dec_stops]. intros H. apply negb_true_iff in H. now apply not_cont_dec. Qed.
+
 (* ---- decimal ------------------------------------------------------------- *)
-Fixpoint dfold (a : dacc) (l : list N) : dacc :=
+Fixpoint dfold (push : dacc -> N -> dacc) (a : dacc) (l : list N) : dacc :=
   match l with
   | [] => a
-  | y :: r => dfold (match dec_digit y with Some d => dec_push a d | None => a end) r
+  | y :: r => dfold push (match dec_digit y with Some d => push a d | None => a end) r
   end.
 
-Lemma scan_dec_body : forall body a e tail, is_dec_body body = true -> ends_token tail = true ->
-  scan_dec a e (body ++ tail) = (dfold a body, e + lenN body, tail).
+Lemma scan_dec_body push : forall body a e tail, is_dec_body body = true -> dec_stops tail ->
+  scan_dec_with push a e (body ++ tail) = (dfold push a body, e + lenN body, tail).
 Proof.
   induction body as [|y body IH]; intros a e tail Hb Ht.
   - cbn [app dfold]. rewrite lenN_nil, N.add_0_r.
-    destruct tail as [|z t]; [reflexivity|]. cbn [ends_token] in Ht. apply negb_true_iff in Ht.
-    apply not_cont_dec in Ht as [Hd H95]. cbn [scan_dec]. rewrite Hd, H95. reflexivity.
+    destruct tail as [|z t]; [reflexivity|]. destruct Ht as [Hd H95].
+    cbn [scan_dec_with]. rewrite Hd, H95. reflexivity.
   - cbn [is_dec_body forallb] in Hb. apply andb_true_iff in Hb as [Hy Hb].
-    cbn [app scan_dec dfold]. rewrite lenN_cons.
+    cbn [app scan_dec_with dfold]. rewrite lenN_cons.
     destruct (dec_digit y) as [d|] eqn:Hd.
     + rewrite IH by assumption. f_equal. f_equal. lia.
     + unfold dec_digit in Hd. destruct (in_range 48 57 y); [discriminate|]. cbn [orb] in Hy.
@@ -978,77 +1146,43 @@ Proof.
   destruct (dec_digit y); [|apply IH]. etransitivity; [|apply IH]. lia.
 Qed.
 
-(* the window in which the unchecked add overflows *)
-Definition K_wrap : N := 34028236692093846346337460743176821145.
-
-(* exactly which accumulator/digit pairs make `value += digit` overflow *)
-Lemma dec_push_panics_iff a d : d <= 9 -> dval a < two128 -> dpanic a = false ->
-  (dpanic (dec_push a d) = true <-> dval a = K_wrap /\ 6 <= d).
-Proof.
-  intros Hd Hv Hp. unfold dec_push. cbn [dpanic]. rewrite Hp. cbn [orb].
-  unfold two128, K_wrap in *.
-  destruct (N.leb_spec 340282366920938463463374607431768211456 (dval a * 10)) as [Hm|Hm].
-  - rewrite N.add_0_l. split.
-    + intros H. apply N.leb_le in H. lia.
-    + intros [H1 H2]. lia.
-  - split.
-    + intros H. apply N.leb_le in H. lia.
-    + intros [H1 H2]. apply N.leb_le. lia.
-Qed.
-
+(* the accumulator tracks the mathematical value [m] until it reaches 2^128, and
+   remembers that it did *)
 Definition dinv (a : dacc) (m : N) : Prop :=
   (dov a = false -> dval a = m /\ m < two128) /\ (dov a = true -> two128 <= m).
 
-Lemma dec_push_inv a m d : d <= 9 -> dinv a m -> dpanic (dec_push a d) = false ->
-  dinv (dec_push a d) (m * 10 + d).
+(* CURRENT code: both steps are checked, the invariant holds unconditionally *)
+Lemma dec_push_inv a m d : dinv a m -> dinv (dec_push a d) (m * 10 + d).
 Proof.
-  intros Hd [H0 H1]. unfold dec_push, dinv. cbn [dval dov dpanic]. intros Hp.
-  apply orb_false_iff in Hp as [_ Hp]. apply N.leb_gt in Hp.
+  intros [H0 H1]. unfold dec_push, dinv. cbn [dval dov].
   destruct (dov a).
   - specialize (H1 eq_refl). cbn [orb]. split; [discriminate|]. intros _. lia.
   - destruct (H0 eq_refl) as [Hv Hm]. rewrite Hv in *. cbn [orb].
-    destruct (N.leb_spec two128 (m * 10)) as [Hov|Hov].
+    destruct (N.leb_spec two128 (m * 10)) as [Hov|Hov]; cbn [orb].
     + split; [discriminate|]. intros _. lia.
-    + split; [|discriminate]. intros _. rewrite N.mod_small by lia. split; [reflexivity|lia].
+    + destruct (N.leb_spec two128 (m * 10 + d)) as [Hov2|Hov2].
+      * split; [discriminate|]. intros _. lia.
+      * split; [|discriminate]. intros _. split; [reflexivity|lia].
 Qed.
 
-Lemma dec_push_panic_mono a d : dpanic (dec_push a d) = false -> dpanic a = false.
-Proof. unfold dec_push. cbn [dpanic]. intros H. apply orb_false_iff in H as [H _]. exact H. Qed.
+Lemma dec_push_keeps_panic a d : dpanic (dec_push a d) = dpanic a.
+Proof. reflexivity. Qed.
 
-Lemma dfold_panic_mono : forall l a, dpanic (dfold a l) = false -> dpanic a = false.
+Lemma dfold_inv : forall l a m, dinv a m -> dinv (dfold dec_push a l) (dec_value m l).
 Proof.
-  induction l as [|y l IH]; intros a H; cbn [dfold] in H; [exact H|].
-  apply IH in H. destruct (dec_digit y); [eapply dec_push_panic_mono; eassumption|exact H].
-Qed.
-
-Lemma dfold_inv : forall l a m, dinv a m -> dpanic (dfold a l) = false -> dinv (dfold a l) (dec_value m l).
-Proof.
-  induction l as [|y l IH]; intros a m Hi Hp; cbn [dfold dec_value] in *; [exact Hi|].
+  induction l as [|y l IH]; intros a m Hi; cbn [dfold dec_value] in *; [exact Hi|].
   destruct (dec_digit y) as [d|] eqn:Hd; [|apply IH; assumption].
-  apply IH; [|assumption]. apply dec_push_inv; [|assumption|].
-  - apply dec_digit_le9 in Hd. tauto.
-  - eapply dfold_panic_mono; eassumption.
+  apply IH. apply dec_push_inv. assumption.
 Qed.
 
-(* below 2^128 the unchecked add never overflows *)
-Lemma dfold_small : forall l a m, dinv a m -> dov a = false -> dpanic a = false ->
-  dec_value m l < two128 -> dpanic (dfold a l) = false.
+Lemma dfold_keeps_panic : forall l a, dpanic (dfold dec_push a l) = dpanic a.
 Proof.
-  induction l as [|y l IH]; intros a m Hi Ho Hp Hm; cbn [dfold dec_value] in *; [exact Hp|].
-  destruct (dec_digit y) as [d|] eqn:Hd; [|eapply IH; eassumption].
-  pose proof (dec_value_mono l (m * 10 + d)) as Hmono.
-  destruct Hi as [H0 _]. destruct (H0 Ho) as [Hv _].
-  assert (Hd9 : d <= 9) by (apply dec_digit_le9 in Hd; tauto).
-  assert (Hpp : dpanic (dec_push a d) = false).
-  { unfold dec_push. cbn [dpanic]. rewrite Hp, Hv. cbn [orb].
-    destruct (N.leb_spec two128 (m * 10)); [lia|]. apply N.leb_gt. lia. }
-  assert (Hoo : dov (dec_push a d) = false).
-  { unfold dec_push. cbn [dov]. rewrite Ho, Hv. cbn [orb]. apply N.leb_gt. lia. }
-  eapply IH; [|exact Hoo|exact Hpp|exact Hm].
-  apply dec_push_inv; [assumption|split; [auto|congruence]|assumption].
+  induction l as [|y l IH]; intros a; cbn [dfold]; [reflexivity|].
+  rewrite IH. destruct (dec_digit y); reflexivity.
 Qed.
 
-Lemma lex_step_decimal f x r i : in_range 49 57 x = true -> lex_step f x r i = lex_decimal x r i.
+Lemma lex_step_decimal push f x r i : in_range 49 57 x = true ->
+  lex_step_with push f x r i = lex_decimal_with push x r i.
 Proof.
   intros H. assert (Hc : x = 49 \/ x = 50 \/ x = 51 \/ x = 52 \/ x = 53 \/ x = 54 \/ x = 55 \/ x = 56 \/ x = 57).
   { unfold in_range in H. apply andb_true_iff in H as [H1 H2]. apply N.leb_le in H1, H2. lia. }
@@ -1063,136 +1197,100 @@ Proof.
   destruct (dec_digit_spec x Hr) as [Hd _]. unfold dec_digit in Hd. rewrite Hr in Hd. now inversion Hd.
 Qed.
 
-(* one step of the main loop on a decimal literal *)
+(* one step of the main loop on a decimal literal (CURRENT code): unconditional *)
 Theorem decimal_step f x body tail i :
   in_range 49 57 x = true -> is_dec_body body = true -> ends_token tail = true ->
   let s := lex_step f x (body ++ tail) i in
   let M := dec_value (x - 48) body in
   let e := i + 1 + lenN body in
-  srest s = tail /\ send s = e /\
-  (M < two128 -> act s = ATok KNakedDecimal (Z.of_N M) None e /\ spanic s = false) /\
-  (two128 <= M -> spanic s = false -> act s = AErr E140 i e).
+  srest s = tail /\ send s = e /\ spanic s = false /\
+  act s = if M <? two128 then ATok KNakedDecimal (Z.of_N M) None e else AErr E140 i e.
 Proof.
-  intros Hx Hb Ht. cbv zeta. rewrite lex_step_decimal by assumption. unfold lex_decimal.
-  rewrite scan_dec_body by assumption. rewrite span_while_stop by assumption.
-  cbn [srest send act spanic lenN length]. rewrite N.add_0_r.
+  intros Hx Hb Ht. cbv zeta. unfold lex_step. rewrite lex_step_decimal by assumption. unfold lex_decimal_with.
+  rewrite scan_dec_body by (try assumption; now apply ends_dec_stops). rewrite span_while_stop by assumption.
+  cbn [srest send act spanic]. rewrite lenN_nil, N.add_0_r.
   rewrite first_digit by assumption.
   set (a0 := {| dval := x - 48; dov := false; dpanic := false |}).
   assert (Hx48 : x - 48 <= 9).
   { unfold in_range in Hx. apply andb_true_iff in Hx as [H1 H2]. apply N.leb_le in H1, H2. lia. }
   assert (Hi0 : dinv a0 (x - 48)).
   { split; [|discriminate]. intros _. split; [reflexivity|]. unfold two128. lia. }
-  split; [reflexivity|]. split; [reflexivity|]. split.
-  - intros HM. assert (Hp : dpanic (dfold a0 body) = false) by (eapply dfold_small; eauto).
-    split; [|exact Hp]. destruct (dfold_inv body a0 _ Hi0 Hp) as [H0 H1].
-    destruct (dov (dfold a0 body)); [specialize (H1 eq_refl); lia|].
-    destruct (H0 eq_refl) as [Hv _]. rewrite Hv. reflexivity.
-  - intros HM Hp. destruct (dfold_inv body a0 _ Hi0 Hp) as [H0 H1].
-    destruct (dov (dfold a0 body)); [reflexivity|]. destruct (H0 eq_refl). lia.
-Qed.
-
-(* ---- from one step to the whole source ----------------------------------- *)
-Lemma lex_delta_single_tok x r k v ty en p :
-  lenN (x :: r) <= MAX_SOURCE_LEN ->
-  lex_step (S (length r)) x r 0 = {| act := ATok k v ty en; srest := []; send := en; spanic := p |} ->
-  lex_delta (x :: r) = [mk_tok k v ty 0 en 1 0] /\ would_overflow_panic (x :: r) = p /\
-  num_end_tokens (x :: r) = 2.
-Proof.
-  intros Hlen Hs. unfold lex_delta, would_overflow_panic, num_end_tokens, lex_result.
-  destruct (N.eqb_spec (lenN (x :: r)) 0) as [H0|_]; [rewrite lenN_cons in H0; lia|].
-  destruct (N.ltb_spec MAX_SOURCE_LEN (lenN (x :: r))) as [H1|_]; [lia|].
-  pose proof (token_capacity_bounds (lenN (x :: r))) as Hc.
-  cbn [lex_loop length]. rewrite Hs. cbn [act srest send spanic].
-  replace (MAX_NUM_PAYLOADS <=? 1) with false by reflexivity. rewrite andb_false_r. cbn [orb].
-  destruct (N.leb_spec (token_capacity (lenN (x :: r))) 0) as [H2|_]; [lia|].
-  destruct (N.leb_spec (token_capacity (lenN (x :: r))) (0 + 1 + 1)) as [H2|_]; [lia|].
-  cbn [lr_cons lr_panic]. rewrite orb_false_r. auto.
-Qed.
-
-Lemma lex_delta_single_err x r c st en p :
-  lenN (x :: r) <= MAX_SOURCE_LEN ->
-  lex_step (S (length r)) x r 0 = {| act := AErr c st en; srest := []; send := en; spanic := p |} ->
-  lex_delta (x :: r) = [mk_tok KError c None st en 1 0] /\ would_overflow_panic (x :: r) = p /\
-  num_end_tokens (x :: r) = 2.
-Proof.
-  intros Hlen Hs. unfold lex_delta, would_overflow_panic, num_end_tokens, lex_result.
-  destruct (N.eqb_spec (lenN (x :: r)) 0) as [H0|_]; [rewrite lenN_cons in H0; lia|].
-  destruct (N.ltb_spec MAX_SOURCE_LEN (lenN (x :: r))) as [H1|_]; [lia|].
-  pose proof (token_capacity_bounds (lenN (x :: r))) as Hc.
-  cbn [lex_loop length]. rewrite Hs. cbn [act srest send spanic].
-  destruct (N.leb_spec (error_capacity (lenN (x :: r))) 0) as [H2|_].
-  { unfold error_capacity, MAX_NUM_LEXING_ERRORS in H2. rewrite lenN_cons in H2. lia. }
-  destruct (N.leb_spec (token_capacity (lenN (x :: r))) 0) as [H2|_]; [lia|].
-  destruct (N.leb_spec (token_capacity (lenN (x :: r))) (0 + 1 + 1)) as [H2|_]; [lia|].
-  cbn [lr_cons lr_panic]. rewrite orb_false_r. auto.
+  split; [reflexivity|]. split; [reflexivity|]. split; [apply dfold_keeps_panic|].
+  destruct (dfold_inv body a0 _ Hi0) as [H0 H1].
+  destruct (dov (dfold dec_push a0 body)).
+  - specialize (H1 eq_refl). destruct (N.ltb_spec (dec_value (x - 48) body) two128); [lia|reflexivity].
+  - destruct (H0 eq_refl) as [Hv Hm]. rewrite Hv.
+    destruct (N.ltb_spec (dec_value (x - 48) body) two128); [reflexivity|lia].
 Qed.
 
 Lemma step_eta (s : step) : s = {| act := act s; srest := srest s; send := send s; spanic := spanic s |}.
 Proof. destruct s; reflexivity. Qed.
 
-Lemma lex_decimal_act x r i :
-  (exists k v ty, act (lex_decimal x r i) = ATok k v ty (send (lex_decimal x r i))) \/
-  (exists c, act (lex_decimal x r i) = AErr c i (send (lex_decimal x r i))).
-Proof.
-  unfold lex_decimal. destruct (scan_dec _ _ _) as [[a1 e1] r1]. destruct (span_while _ _) as [sfx r2].
-  cbn [act send]. destruct (dov a1); [right; eauto|]. destruct sfx; [left; eauto|].
-  unfold suffixed. destruct (parse_integer_suffix _); [left; eauto|right; eauto].
-Qed.
-
-(* 2. a source consisting of one decimal literal.  Correct for every value
-   below 2^128; at or above 2^128 it is E140 PROVIDED the unchecked add did not
-   overflow (would_overflow_panic = false). *)
+(* 2. a source consisting of one decimal literal (CURRENT code): KNakedDecimal M
+   below 2^128, E140 from 2^128 on, no side condition *)
 Theorem decimal_value_delta x body :
   in_range 49 57 x = true -> is_dec_body body = true -> lenN (x :: body) <= MAX_SOURCE_LEN ->
   let M := dec_value (x - 48) body in
   let n := lenN (x :: body) in
-  (M < two128 ->
-     lex_delta (x :: body) = [mk_tok KNakedDecimal (Z.of_N M) None 0 n 1 0] /\
-     would_overflow_panic (x :: body) = false) /\
-  (two128 <= M -> would_overflow_panic (x :: body) = false ->
-     lex_delta (x :: body) = [mk_tok KError E140 None 0 n 1 0]).
+  lex_delta (x :: body) =
+    [if M <? two128 then mk_tok KNakedDecimal (Z.of_N M) None 0 n 1 0 else mk_tok KError E140 None 0 n 1 0].
 Proof.
   intros Hx Hb Hlen. cbv zeta.
   pose proof (decimal_step (S (length body)) x body [] 0 Hx Hb eq_refl) as Hs.
-  cbv zeta in Hs. rewrite app_nil_r in Hs. destruct Hs as (Hr & He & Hlt & Hge).
+  cbv zeta in Hs. rewrite app_nil_r in Hs. destruct Hs as (Hr & He & Hp & Ha).
   assert (Hn : 0 + 1 + lenN body = lenN (x :: body)) by (rewrite lenN_cons; lia).
   rewrite Hn in *.
-  pose proof (step_eta (lex_step (S (length body)) x body 0)) as Heta. rewrite Hr, He in Heta.
-  split.
-  - intros HM. destruct (Hlt HM) as [Ha Hp]. rewrite Ha, Hp in Heta.
-    destruct (lex_delta_single_tok _ _ _ _ _ _ _ Hlen Heta) as (H1 & H2 & _). auto.
-  - intros HM Hwp.
-    assert (Hp : spanic (lex_step (S (length body)) x body 0) = false).
-    { destruct (lex_decimal_act x body 0) as [(k & v & ty & Ha)|(c & Ha)];
-        rewrite <- lex_step_decimal with (f := S (length body)) in Ha by assumption;
-        rewrite He in Ha; rewrite Ha in Heta.
-      - destruct (lex_delta_single_tok _ _ _ _ _ _ _ Hlen Heta) as (_ & H2 & _). congruence.
-      - destruct (lex_delta_single_err _ _ _ _ _ _ Hlen Heta) as (_ & H2 & _). congruence. }
-    rewrite (Hge HM Hp), Hp in Heta.
-    destruct (lex_delta_single_err _ _ _ _ _ _ Hlen Heta) as (H1 & _). exact H1.
+  pose proof (step_eta (lex_step (S (length body)) x body 0)) as Heta.
+  rewrite Hr, He, Hp, Ha in Heta.
+  destruct (dec_value (x - 48) body <? two128).
+  - destruct (lex_delta_single_tok dec_push _ _ _ _ _ _ _ Hlen Heta) as (H1 & _). exact H1.
+  - destruct (lex_delta_single_err dec_push _ _ _ _ _ _ Hlen Heta) as (H1 & _). exact H1.
 Qed.
 
-(* the natural statement (E140 for EVERY value >= 2^128) is false for the pinned
-   code: the literal 2^128 itself lexes to NakedDecimal 0 in a release build *)
+(* ---- the PINNED accumulation (defect D4) ----------------------------------- *)
+(* the window in which the unchecked add overflowed *)
+Definition K_wrap : N := 34028236692093846346337460743176821145.
+
+(* exactly which accumulator/digit pairs made `value += digit` overflow *)
+Lemma dec_push_pinned_panics_iff a d : d <= 9 -> dval a < two128 -> dpanic a = false ->
+  (dpanic (dec_push_pinned a d) = true <-> dval a = K_wrap /\ 6 <= d).
+Proof.
+  intros Hd Hv Hp. unfold dec_push_pinned. cbn [dpanic]. rewrite Hp. cbn [orb].
+  unfold two128, K_wrap in *.
+  destruct (N.leb_spec 340282366920938463463374607431768211456 (dval a * 10)) as [Hm|Hm].
+  - rewrite N.add_0_l. split.
+    + intros H. apply N.leb_le in H. lia.
+    + intros [H1 H2]. lia.
+  - split.
+    + intros H. apply N.leb_le in H. lia.
+    + intros [H1 H2]. apply N.leb_le. lia.
+Qed.
+
+(* the natural statement (E140 for EVERY value >= 2^128) was false for the pinned
+   code: the literal 2^128 itself lexed to NakedDecimal 0 in a release build and
+   panicked in a debug build.  The current code gives E140. *)
 Theorem decimal_value_delta_refuted :
   exists x body,
     in_range 49 57 x = true /\ is_dec_body body = true /\ lenN (x :: body) <= MAX_SOURCE_LEN /\
     two128 <= dec_value (x - 48) body /\
-    lex_delta (x :: body) = [mk_tok KNakedDecimal 0 None 0 39 1 0] /\
-    would_overflow_panic (x :: body) = true.
+    lex_delta_pinned (x :: body) = [mk_tok KNakedDecimal 0 None 0 39 1 0] /\
+    would_overflow_panic_pinned (x :: body) = true /\
+    lex_delta (x :: body) = [mk_tok KError E140 None 0 39 1 0].
 Proof.
   exists 51, (bs "40282366920938463463374607431768211456"). vm_compute.
   repeat split; discriminate.
 Qed.
 
-(* all four values 2^128 .. 2^128+3 wrap to 0 .. 3; 2^128+4 is E140 again *)
+(* pinned: all four values 2^128 .. 2^128+3 wrapped to 0 .. 3; current: E140 *)
 Example decimal_wrap_window :
-  map (fun s => map (fun t => (kind t, value t)) (lex_delta s))
+  map (fun s => (map (fun t => (kind t, value t)) (lex_delta_pinned s), map (fun t => (kind t, value t)) (lex_delta s)))
       [bs "340282366920938463463374607431768211455"; bs "340282366920938463463374607431768211456";
        bs "340282366920938463463374607431768211457"; bs "340282366920938463463374607431768211458";
        bs "340282366920938463463374607431768211459"; bs "340282366920938463463374607431768211460"] =
-  [[(KNakedDecimal, 340282366920938463463374607431768211455%Z)]; [(KNakedDecimal, 0%Z)];
-   [(KNakedDecimal, 1%Z)]; [(KNakedDecimal, 2%Z)]; [(KNakedDecimal, 3%Z)]; [(KError, E140)]].
+  [([(KNakedDecimal, 340282366920938463463374607431768211455%Z)], [(KNakedDecimal, 340282366920938463463374607431768211455%Z)]);
+   ([(KNakedDecimal, 0%Z)], [(KError, E140)]); ([(KNakedDecimal, 1%Z)], [(KError, E140)]);
+   ([(KNakedDecimal, 2%Z)], [(KError, E140)]); ([(KNakedDecimal, 3%Z)], [(KError, E140)]);
+   ([(KError, E140)], [(KError, E140)])].
 Proof. vm_compute. reflexivity. Qed.
 
 (* ---- hexadecimal ---------------------------------------------------------- *)
@@ -1259,13 +1357,16 @@ Fixpoint hfold (a : hacc) (l : list N) : hacc :=
   | y :: r => hfold (match hex_digit y with Some d => hex_push a d | None => a end) r
   end.
 
-Lemma scan_hex_body : forall body a e tail, is_hex_body body = true -> ends_token tail = true ->
+Lemma ends_hex_stops tail : ends_token tail = true -> hex_stops tail.
+Proof. destruct tail as [|y t]; [exact (fun _ => I)|]. cbn [ends_token hex_stops]. intros H. apply negb_true_iff in H. now apply not_cont_hex. Qed.
+
+Lemma scan_hex_body : forall body a e tail, is_hex_body body = true -> hex_stops tail ->
   scan_hex a e (body ++ tail) = (hfold a body, e + lenN body, tail).
 Proof.
   induction body as [|y body IH]; intros a e tail Hb Ht.
   - cbn [app hfold]. rewrite lenN_nil, N.add_0_r.
-    destruct tail as [|z t]; [reflexivity|]. cbn [ends_token] in Ht. apply negb_true_iff in Ht.
-    apply not_cont_hex in Ht as [Hd H95]. cbn [scan_hex]. rewrite Hd, H95. reflexivity.
+    destruct tail as [|z t]; [reflexivity|]. destruct Ht as [Hd H95].
+    cbn [scan_hex]. rewrite Hd, H95. reflexivity.
   - cbn [is_hex_body forallb] in Hb. apply andb_true_iff in Hb as [Hy Hb].
     cbn [app scan_hex hfold]. rewrite lenN_cons.
     destruct (hex_digit y) as [d|] eqn:Hd.
@@ -1312,7 +1413,7 @@ Theorem hex_step f body tail i :
 Proof.
   intros Hb Hd Ht. cbv zeta. change (lex_step f 48 (120 :: body ++ tail) i) with (lex_zero (120 :: body ++ tail) i).
   unfold lex_zero, zero_prefix. rewrite N.eqb_refl.
-  rewrite scan_hex_body by assumption. rewrite hfold_digits, Hd. cbn [hdigits orb].
+  rewrite scan_hex_body by (try assumption; now apply ends_hex_stops). rewrite hfold_digits, Hd. cbn [hdigits orb].
   rewrite span_while_stop by assumption. cbn [srest send act spanic mk_step]. rewrite lenN_nil.
   set (a := hfold _ body).
   assert (Hi : hinv a (hex_value 0 body)).
@@ -1347,8 +1448,8 @@ Proof.
   pose proof (step_eta (lex_step (S (length (120 :: body))) 48 (120 :: body) 0)) as Heta.
   rewrite Hr, He, Hp, Ha in Heta.
   destruct (hex_value 0 body <? two128).
-  - destruct (lex_delta_single_tok _ _ _ _ _ _ _ Hlen Heta) as (H1 & H2 & _). auto.
-  - destruct (lex_delta_single_err _ _ _ _ _ _ Hlen Heta) as (H1 & H2 & _). auto.
+  - destruct (lex_delta_single_tok dec_push _ _ _ _ _ _ _ Hlen Heta) as (H1 & H2 & _). auto.
+  - destruct (lex_delta_single_err dec_push _ _ _ _ _ _ Hlen Heta) as (H1 & H2 & _). auto.
 Qed.
 
 (* ---- binary ---------------------------------------------------------------- *)
@@ -1375,16 +1476,19 @@ Proof. intros H. rewrite two128_pow. apply N.pow_le_mono_r; lia. Qed.
 Lemma not_cont_bin y : is_ident_cont y = false -> (y =? 48) = false /\ (y =? 49) = false /\ (y =? 95) = false.
 Proof. intros H. repeat split; apply N.eqb_neq; intros ->; discriminate. Qed.
 
+Lemma ends_bin_stops tail : ends_token tail = true -> bin_stops tail.
+Proof. destruct tail as [|y t]; [exact (fun _ => I)|]. cbn [ends_token bin_stops]. intros H. apply negb_true_iff in H. now apply not_cont_bin. Qed.
+
 Lemma scan_bin_body : forall body nd v e tail,
-  is_bin_body body = true -> ends_token tail = true ->
+  is_bin_body body = true -> bin_stops tail ->
   nd + bin_digits body <= 128 -> v < 2 ^ nd ->
   scan_bin nd v e (body ++ tail) = (nd + bin_digits body, bin_value v body, e + lenN body, tail)
   /\ bin_value v body < 2 ^ (nd + bin_digits body).
 Proof.
   induction body as [|y body IH]; intros nd v e tail Hb Ht Hnd Hv.
   - cbn [app bin_digits bin_value]. rewrite lenN_nil, !N.add_0_r. split; [|assumption].
-    destruct tail as [|z t]; [reflexivity|]. cbn [ends_token] in Ht. apply negb_true_iff in Ht.
-    apply not_cont_bin in Ht as (H48 & H49 & H95). cbn [scan_bin]. rewrite H48, H49, H95.
+    destruct tail as [|z t]; [reflexivity|]. destruct Ht as (H48 & H49 & H95).
+    cbn [scan_bin]. rewrite H48, H49, H95.
     cbn [bin_digits] in Hnd. destruct (N.ltb_spec 128 nd); [lia|reflexivity].
   - cbn [is_bin_body forallb] in Hb. apply andb_true_iff in Hb as [Hy Hb].
     cbn [app scan_bin bin_digits bin_value] in *. rewrite lenN_cons.
@@ -1478,7 +1582,7 @@ Proof.
   intros Hb Hd Ht. cbv zeta. change (lex_step f 48 (98 :: body ++ tail) i) with (lex_zero (98 :: body ++ tail) i).
   unfold lex_zero, zero_prefix. change (98 =? 120) with false. cbn iota. rewrite N.eqb_refl.
   destruct (N.leb_spec (bin_digits body) 128) as [Hle|Hgt].
-  - destruct (scan_bin_body body 0 0 (i + 1 + 1) tail Hb Ht ltac:(lia) ltac:(reflexivity)) as [Hsc _].
+  - destruct (scan_bin_body body 0 0 (i + 1 + 1) tail Hb (ends_bin_stops _ Ht) ltac:(lia) ltac:(reflexivity)) as [Hsc _].
     rewrite Hsc. rewrite N.add_0_l.
     destruct (N.ltb_spec 128 (bin_digits body)) as [Hc|_]; [lia|].
     destruct (N.ltb_spec 0 (bin_digits body)) as [_|Hc]; [|lia].
@@ -1515,15 +1619,15 @@ Proof.
   pose proof (step_eta (lex_step (S (length (98 :: body))) 48 (98 :: body) 0)) as Heta.
   rewrite Hr, He, Hp, Ha in Heta.
   destruct (bin_digits body <=? 128).
-  - destruct (lex_delta_single_tok _ _ _ _ _ _ _ Hlen Heta) as (H1 & _). exact H1.
-  - destruct (lex_delta_single_err _ _ _ _ _ _ Hlen Heta) as (H1 & _). exact H1.
+  - destruct (lex_delta_single_tok dec_push _ _ _ _ _ _ _ Hlen Heta) as (H1 & _). exact H1.
+  - destruct (lex_delta_single_err dec_push _ _ _ _ _ _ Hlen Heta) as (H1 & _). exact H1.
 Qed.
 
 (* with at most 128 digits the value always fits, so BitInteger carries the exact value *)
 Lemma bin_value_fits body : is_bin_body body = true -> bin_digits body <= 128 -> bin_value 0 body < two128.
 Proof.
   intros Hb Hd.
-  destruct (scan_bin_body body 0 0 0 [] Hb eq_refl ltac:(lia) ltac:(reflexivity)) as [_ H].
+  destruct (scan_bin_body body 0 0 0 [] Hb I ltac:(lia) ltac:(reflexivity)) as [_ H].
   eapply N.lt_le_trans; [exact H|]. apply pow2_le_two128. lia.
 Qed.
 
@@ -1536,6 +1640,9 @@ Proof. exists (repeat 48 129). vm_compute. repeat split. Qed.
 (* ========================================================================== *)
 (* 5. Spans, line numbers, line offsets                                       *)
 (* ========================================================================== *)
+Section GenericSpans.
+Variable push : dacc -> N -> dacc.
+
 (* ---- specification -------------------------------------------------------- *)
 Fixpoint count_nl (l : list N) : N :=
   match l with
@@ -1567,9 +1674,9 @@ Definition tok_origin (src : list N) (t : tok) : Prop :=
   is_error t = false ->
   tstart t < tend t /\
   exists pre x r f, src = pre ++ x :: r /\ tstart t = lenN pre /\
-    act (lex_step f x r (lenN pre)) = ATok (kind t) (value t) (vtype t) (tend t) /\
-    send (lex_step f x r (lenN pre)) = tend t /\
-    srest (lex_step f x r (lenN pre)) = skipn (N.to_nat (tend t)) src.
+    act (lex_step_with push f x r (lenN pre)) = ATok (kind t) (value t) (vtype t) (tend t) /\
+    send (lex_step_with push f x r (lenN pre)) = tend t /\
+    srest (lex_step_with push f x r (lenN pre)) = skipn (N.to_nat (tend t)) src.
 
 Definition tok_line (src : list N) (t : tok) : Prop :=
   line t = line_of src (tstart t) /\
@@ -1641,17 +1748,17 @@ Lemma lex_loop_spans src cap errcap : forall fuel rest pos ln sol ntok npay nerr
   src = pre ++ rest -> pos = lenN pre ->
   (has_bsnl src = false -> ln = 1 + count_nl pre /\ sol = last_sol 0 0 pre) ->
   (length rest < fuel)%nat ->
-  lr_prop (spans_post src pos) (lex_loop fuel rest pos ln sol ntok npay nerr cap errcap).
+  lr_prop (spans_post src pos) (lex_loop_with push fuel rest pos ln sol ntok npay nerr cap errcap).
 Proof.
   induction fuel as [|f IH]; intros rest pos ln sol ntok npay nerr pre Hsrc Hpos Hln Hf; [lia|].
-  cbn [lex_loop]. destruct rest as [|x r].
+  cbn [lex_loop_with]. destruct rest as [|x r].
   - destruct (cap <=? ntok + 1); cbn [lr_prop]; [exact I|].
     rewrite app_nil_r in Hsrc. subst pre. unfold spans_post. cbn [spans_sorted].
     split; [exact I|]. split; [constructor|]. intros Hbs. split; [constructor|].
     unfold line_of, sol_of. rewrite prefix_all. apply Hln. assumption.
   - cbn [length] in Hf.
-    remember (lex_step f x r pos) as s eqn:Hs.
-    destruct (lex_step_ok f x r pos ltac:(lia)) as (seg & Hr & He & Hact). rewrite <- Hs in *.
+    remember (lex_step_with push f x r pos) as s eqn:Hs.
+    destruct (lex_step_ok_gen push f x r pos ltac:(lia)) as (seg & Hr & He & Hact). rewrite <- Hs in *.
     assert (Hlen : (length (srest s) < f)%nat) by (rewrite Hr in Hf; rewrite app_length in Hf; lia).
     assert (Hsrc' : src = (pre ++ x :: seg) ++ srest s).
     { rewrite Hsrc, Hr. rewrite <- app_assoc. reflexivity. }
@@ -1708,7 +1815,7 @@ Proof.
     + (* error *)
       destruct Hact as (H1 & H2 & H3 & Hok).
       assert (Hrec : lr_prop (spans_post src (send s))
-                       (lex_loop f (srest s) (send s) ln sol ntok npay nerr cap errcap)).
+                       (lex_loop_with push f (srest s) (send s) ln sol ntok npay nerr cap errcap)).
       { eapply (IH _ _ _ _ _ _ _ (pre ++ x :: seg)); [exact Hsrc'|exact Hpos'| |exact Hlen].
         intros Hbs. apply Hsame; assumption. }
       destruct (errcap <=? nerr).
@@ -1735,8 +1842,8 @@ Qed.
    iteration started at its first byte consumes.  Line number = 1 + number of
    newline bytes before the token, line offset = distance to the byte after the
    last newline: PROVIDED the source nowhere contains backslash-newline. *)
-Theorem span_exact_delta src toks eln esol p :
-  lex_result src = LexRun (Done toks eln esol p) ->
+Theorem span_exact_delta_gen src toks eln esol p :
+  lex_result_with push src = LexRun (Done toks eln esol p) ->
   spans_sorted 0 toks /\
   Forall (fun t => tend t <= lenN src /\ bytes t = [] /\ tok_origin src t) toks /\
   (has_bsnl src = false ->
@@ -1747,6 +1854,18 @@ Proof.
                 (S (length src)) src 0 1 0 0 1 0 [] eq_refl eq_refl) as Hinv.
   rewrite <- H in Hinv. apply Hinv; [|lia]. intros _. split; reflexivity.
 Qed.
+
+End GenericSpans.
+
+(* instance for the CURRENT lexer *)
+Theorem span_exact_delta src toks eln esol p :
+  lex_result src = LexRun (Done toks eln esol p) ->
+  spans_sorted 0 toks /\
+  Forall (fun t => tend t <= lenN src /\ bytes t = [] /\ tok_origin dec_push src t) toks /\
+  (has_bsnl src = false ->
+     Forall (tok_line src) toks /\ eln = line_of src (lenN src) /\ esol = sol_of src (lenN src)).
+Proof. apply (span_exact_delta_gen dec_push). Qed.
+
 
 (* without that hypothesis the line part is false: the newline swallowed by an
    (invalid) escape inside a literal does not advance the line counter *)
@@ -1790,7 +1909,8 @@ Print Assumptions tokens_le_bytes_plus_k.
 Print Assumptions no_E103_small.
 Print Assumptions decimal_value_delta.
 Print Assumptions decimal_value_delta_refuted.
-Print Assumptions dec_push_panics_iff.
+Print Assumptions dec_push_pinned_panics_iff.
+Print Assumptions would_overflow_panic_never.
 Print Assumptions hex_value_delta.
 Print Assumptions bin_value_delta.
 Print Assumptions bin_value_delta_refuted.
@@ -1800,3 +1920,4 @@ Print Assumptions total.
 Print Assumptions errors_capped.
 Print Assumptions errors_dropped_after_cap.
 Print Assumptions lex_step_ok.
+
